@@ -323,7 +323,10 @@ def k_cell(run, case):
         # what the existing targets are: files with content, empty files (touch / mkstemp / an
         # aborted run), or symbolic links to files kept elsewhere
         erng = run.rng(case, stream=5)
-        existing_kind = case.get("existing") or ["content", "content", "empty", "symlink"][erng.integers(4)]
+        kinds = ["content", "content", "empty", "symlink"]
+        if os.geteuid() == 0:
+            kinds.append("readonly")  # (a privileged process - containers, CI - writes through missing write bits)
+        existing_kind = case.get("existing") or kinds[erng.integers(len(kinds))]
         for f in E:
             dst = loc(outB, f)
             os.makedirs(os.path.dirname(dst) or outB, exist_ok=True)
@@ -337,6 +340,8 @@ def k_cell(run, case):
                 os.symlink(real, dst)
             else:
                 open(dst, "wb").write(b"OLD CONTENT of " + f.encode() + b"\n" * 3)
+                if existing_kind == "readonly":
+                    os.chmod(dst, 0o444)
         before = digest_roots(outB)
         with fsmon.Recorder() as rec:
             rB = S.run(outB, ctx, [answer] * 40, no_warnings)
